@@ -493,4 +493,29 @@ func exhaustive(t *testing.T) {
 		}
 	}
 	run.Exhaustive("raw block counts 1..N and refused lengths 0..80", m)
+	// large inputs (file parts of 128 / 256 / 512 KiB travel through all three layers): powers of two of the block
+	// count and their neighbours
+	var k int64
+	for _, b := range []int{4095, 4096, 4097, 8191, 8192, 8193, 16384, 32768, 32769} {
+		for _, c := range []Case{
+			{Kind: "raw", Key: det(run.Seed+uint64(b), 32), IV: det(run.Seed+uint64(b)+1, 32), Data: det(run.Seed+uint64(b)+2, 16*b)},
+			{Kind: "msg", Key: det(run.Seed+uint64(b)+3, 256), Data: det(run.Seed+uint64(b)+4, 16*b-24), Pad: det(uint64(b), 16)},
+			{Kind: "wrap", NN: det(run.Seed+uint64(b)+5, 32), SN: det(run.Seed+uint64(b)+6, 16), Data: det(run.Seed+uint64(b)+7, 16*b-20+b%3), Pad: det(uint64(b)+1, 16)},
+		} {
+			c.NN, c.SN = append([]byte{}, c.NN...), append([]byte{}, c.SN...)
+			if c.Kind == "wrap" {
+				c.NN[0] |= 1
+				c.SN[0] |= 1
+			}
+			record(c)
+			k++
+			if err := oracle(c); err != nil {
+				p := run.ViolationNamed(fmt.Sprintf("large-%s-blocks%d", c.Kind, b), c, err.Error())
+				t.Errorf("violation (replay %s): %v", p, err)
+				return
+			}
+		}
+	}
+	run.Class("large-inputs>=2^12-blocks", k)
+	run.Exhaustive("9 large block counts (4095..32769) x {cipher, message wrapper, key-exchange wrapper}", k)
 }
